@@ -5,6 +5,7 @@ From MV Require Import Base.Prelude Model.Topic Spec.SpecTopic Model.TopicOracle
 From MV Require Model.Sink.   (* qualified: Sink.v has many short names *)
 From MV Require Model.Limiter Model.LimiterOracle.   (* qualified as well *)
 From MV Require Model.Payload.
+From MV Require Model.PlStop.   (* qualified: own state/step names on top of Payload *)
 From MV Require Model.Sized.   (* qualified: short names (step, run_from, op ..) *)
 From MV Require Model.EnginesHs.   (* qualified: imports both codec models *)
 
@@ -26,6 +27,8 @@ Definition run (e : N) (c : list (list N)) : list (list N) :=
   | 32 => Sink.run_sink5 c
   | 35 => Limiter.run_limiter c
   | 41 => Payload.run_payload c
+  | 42 => PlStop.run_plstop3 c
+  | 43 => PlStop.run_plstop5 c
   | 13 => Sized.run_sized3 c
   | 23 => Sized.run_sized5 c
   | 38 => EnginesHs.run_hs c
